@@ -95,13 +95,14 @@ fn run_single(ctx: &Ctx) -> Report {
         }
     }
     let thorough = !ctx.quick();
+    let maxp: usize = ctx.pick(4096, 32768);
     let mut rep = par_run(jobs, ctx.threads, move |(kind, chunk), rep| {
-        for n in (0..=4096usize).filter(|n| n % 16 == *chunk) {
+        for n in (0..=maxp).filter(|n| n % 16 == *chunk) {
             let mut p = Params::new1(*kind, n);
             if kind.has_multiplier() {
                 p.k = MULTS[n % MULTS.len()];
             }
-            check_ctor(rep, &p, n <= 64 || n % 257 == 0 || thorough);
+            check_ctor(rep, &p, n <= 64 || n % 257 == 0 || (thorough && n <= 4096));
             rep.distinct_by_construction += 1;
         }
     });
@@ -115,18 +116,19 @@ fn run_single(ctx: &Ctx) -> Report {
 
 fn run_multi(_ctx: &Ctx) -> Report {
     let mut jobs = Vec::new();
+    let top: usize = _ctx.pick(24, 64);
     for kind in [Kind::Slow, Kind::Macd, Kind::Ppo] {
-        for a in 0..=24usize {
+        for a in 0..=top {
             jobs.push((kind, a));
         }
     }
-    par_run(jobs, _ctx.threads, |(kind, a), rep| {
-        for b in 0..=24usize {
+    par_run(jobs, _ctx.threads, move |(kind, a), rep| {
+        for b in 0..=top {
             if *kind == Kind::Slow {
                 check_ctor(rep, &Params { kind: *kind, p: [*a, b, 0], k: 0.0 }, true);
                 rep.distinct_by_construction += 1;
             } else {
-                for c in 0..=24usize {
+                for c in 0..=top {
                     check_ctor(rep, &Params { kind: *kind, p: [*a, b, c], k: 0.0 }, (*a + b + c) % 5 == 0);
                     rep.distinct_by_construction += 1;
                 }
